@@ -19,6 +19,7 @@ import Binson.Model.Print
 import Binson.Model.Transcribe
 import Binson.Model.Cpp
 import Binson.Spec.Canon
+import Binson.Spec.WriterSpec
 
 open Binson
 
@@ -409,21 +410,6 @@ def itemVal (it : Item) : String :=
   | .string, .span s => s!"s{s.off}+{s.len}"
   | .bytes, .span s => s!"y{s.off}+{s.len}"
   | _, _ => "_"
-
-/-- spec encoding of one write call (independent of the writer model's `packInt`) -/
-def specPieces : WOp → List Bytes
-  | .objBegin => [[0x40]] | .objEnd => [[0x41]] | .arrBegin => [[0x42]] | .arrEnd => [[0x43]]
-  | .bool b => [[if b then 0x44 else 0x45]]
-  | .int v => [encInt 0x10 v]
-  | .dbl bits => [0x46 :: leBytes 8 bits]
-  | .str s => if s.isEmpty then [encInt 0x14 0] else [encInt 0x14 s.length, s]
-  | .bytes s => if s.isEmpty then [encInt 0x18 0] else [encInt 0x18 s.length, s]
-  | .raw s => [s]
-
-/-- everything written before the first piece that did not fit -/
-def fitted (cap : Nat) : Nat → List Bytes → Bytes
-  | _, [] => []
-  | used, p :: r => if used + p.length ≤ cap then p ++ fitted cap (used + p.length) r else []
 
 /-- C05: rebuild the value tree from a well-formed op sequence (oldest first). -/
 partial def buildValue : List WOp → Option (Value × List WOp)
